@@ -388,14 +388,59 @@ end ChainRun
 section Crash
 variable (name k : String)
 
-/-- in the code's order nothing is pending when the task function is entered -/
-theorem enterTask_early_durable (fixed : Bool) (d d' : DB) (f : HRef HT) (h : enterTask fixed true d f = .ok d') :
+/-- in the code's order nothing is pending when the task function is entered, however many handle states the job
+received -/
+theorem enterTask_early_durable (fixed : Bool) (d d' : DB) (fs : List (HRef HT)) (h : enterTask fixed true d fs = .ok d') :
     d'.ses = d'.dur := by
-  unfold enterTask DB.rollback at h
+  unfold enterTask at h
   simp only [if_true] at h
-  cases hr : d.ses.rollback fixed f with
+  cases hr : d.rollbackAll fixed fs with
   | error e => simp [hr] at h
   | ok s => simp [hr] at h; subst h; rfl
+
+theorem joined_true_map_inv (st : St HT) (res : List HT) (nm : String) (e : HT × HT) :
+    e ∈ ({ st with rows := st.rows.map fun r => if r.hash ∈ res then { r with valid := false } else r } : St HT).joined true nm ↔
+      e ∈ st.joined true nm := by
+  simp only [mem_joined]
+  constructor
+  · rintro ⟨he, r, hr, h1, h2, _⟩
+    obtain ⟨r0, hr0, rfl⟩ := List.mem_map.1 hr
+    refine ⟨he, r0, hr0, ?_, ?_, Or.inl trivial⟩
+    · revert h1; split <;> simp
+    · revert h2; split <;> simp
+  · rintro ⟨he, r, hr, h1, h2, _⟩
+    refine ⟨he, _, List.mem_map.2 ⟨r, hr, rfl⟩, ?_, ?_, Or.inl trivial⟩
+    · split <;> simpa using h1
+    · split <;> simpa using h2
+
+/-- `_perform_rollbacks` (repaired backend): after it, for EVERY handle state among the arguments, everything derived
+from that state is invalid — two states of one handle name are rolled back separately -/
+theorem rollbackAll_invalidates (fs : List (HRef HT)) (d d' : DB) (h : d.rollbackAll true fs = .ok d') :
+    ∀ f ∈ fs, ∀ y, Desc (d.ses.joined true f.name) f.hash y → d'.ses.isValid y = false := by
+  induction fs generalizing d with
+  | nil => simp
+  | cons f fs ih =>
+    obtain ⟨res, hrb, hres⟩ := rollback_spec true d.ses f
+    simp only [DB.rollbackAll, DB.rollback, hrb] at h
+    have mono : ∀ (gs : List (HRef HT)) (a b : DB), a.rollbackAll true gs = .ok b → ∀ y, a.ses.isValid y = false →
+        b.ses.isValid y = false := by
+      intro gs
+      induction gs with
+      | nil => intro a b hab y hy; simp only [DB.rollbackAll, Except.ok.injEq] at hab; subst hab; exact hy
+      | cons g gs ihg =>
+        intro a b hab y hy
+        obtain ⟨r2, hrb2, _⟩ := rollback_spec true a.ses g
+        simp only [DB.rollbackAll, DB.rollback, hrb2] at hab
+        refine ihg _ b hab y ?_
+        simp only [isValid_eq, validIn_map_inv]
+        rw [← isValid_eq, hy]; rfl
+    intro g hg y hy
+    rcases List.mem_cons.1 hg with rfl | hg
+    · refine mono fs _ d' h y ?_
+      simp only [isValid_eq, validIn_map_inv, (hres y).2 hy]
+      simp
+    · refine ih _ h g hg y ?_
+      exact Desc.mono (fun e he => (joined_true_map_inv d.ses res g.name e).2 he) hy
 
 theorem crashTask_spec (fixed : Bool) (w : WSt) (p : List String) (t : String) (h : J name k w.st w.ext)
     (hp : p <+: w.ext) (hv : p = [] ∨ w.st.isValid (node name k p) = true) :
@@ -420,7 +465,7 @@ theorem crashTask_spec (fixed : Bool) (w : WSt) (p : List String) (t : String) (
     · rw [node_inj name k hx]; exact hq
     · exact absurd hx (node_ne_fk name k _ _)
   · obtain ⟨st2, hrb, hj2, _⟩ := J_rollback name k fixed h1 hp hfv
-    simp only [enterTask, DB.rollback, if_true, hrb, DB.commit, DB.crash]
+    simp only [enterTask, DB.rollbackAll, DB.rollback, if_true, hrb, DB.commit, DB.crash]
     have hext : w.ext.take p.length ++ [t] = p ++ [t] := by
       rw [← List.prefix_iff_eq_take.1 hp]
     refine ⟨_, true, rfl, ?_, fun h => by simp at h⟩
